@@ -39,7 +39,7 @@ manifest = {
          "kind_free_text": "CrossHair 0.0.110 (symbolic execution of the real xsdata modules with z3, plus the /verif/chmodels model pack) and pyz3 (/verif/pyz3: AST->z3 translation of loop-free integer kernels regenerated from /repo's current source on every run); counterexamples are replayed on the real code by a plain interpreter before a VIOLATION is printed"},
     ],
     "checks": [CHECKS[k] for k in sorted(CHECKS)],
-    "not_applicable": [{"property_id": k, "reason": NA[k]} for k in sorted(NA)],
+    "not_applicable": [{"property_id": k, "reason": NA[k]} for k in sorted(NA) if k not in CHECKS],
     "notes": "Solver-based checking of the real code; every verdict is bounded (see DESIGN.md). Exit 3 is reserved for harness errors (a counterexample that does not replay, an unreachable assertion).",
 }
 with open(os.path.join(VERIF, "MANIFEST.json"), "w") as f:
